@@ -127,7 +127,7 @@ def targeted(w, rng):
         c = w.const_num()
         return em.Int(c) if isinstance(c, int) else em.Real(Fraction(c))
 
-    kind = rng.randrange(12)
+    kind = rng.randrange(13)
     if kind == 0:  # integer division of big constants
         big = rng.choice(BIG + [2 ** 60 + 2, 2 ** 53 + 2, 3 * (2 ** 61) + 3, -(2 ** 62) - 2, 10 ** 30 + 7])
         d = rng.choice([1, 2, 3, -2, 7, 2 ** 20, big, -big, 10])
@@ -252,6 +252,16 @@ def targeted(w, rng):
                            lambda: em.And(boo(), em.Equals(ve, ve)), lambda: em.Or(boo(), F["b1"](ve)),
                            lambda: em.Implies(F["b1"](ve), F["b1"](ve))])()
         return rng.choice([em.Exists, em.Forall])(body, *rng.choice([[v], [v, v2], [v2, v]]))
+    if kind == 11:  # quantifiers over several variables that all survive (the order of the variables must be kept)
+        vs = [w.fresh_var(rng.choice(w.all_types())) for _ in range(rng.randint(2, 3))]
+        ves = [em.VariableExp(v) for v in vs]
+        atoms = [F["b1"](x) for x in ves] + [em.Equals(ves[0], ves[1]), em.Not(F["b1"](ves[-1])), em.LE(F["i1"](ves[0]), F["i1"](ves[-1]))]
+        if vs[0].type == w.T1:
+            atoms.append(F["b2"](ves[0], ves[1]))
+        body = rng.choice([em.Or, em.And])(atoms[:len(vs)] + [rng.choice(atoms), boo()])
+        if body.is_and() and rng.random() < 0.5:
+            body = em.Or(body, boo())
+        return rng.choice([em.Exists, em.Forall])(body, *vs)
     # comparisons of constants of any magnitude
     a, b = const(), const()
     return rng.choice([lambda: em.LE(a, b), lambda: em.LT(a, b), lambda: em.Equals(a, b), lambda: em.Equals(a, a),
